@@ -87,7 +87,7 @@ Dom(D) ==
 Ran(D) ==
   CASE D.k \in {"pwnorm", "pwinner", "pwsum"} -> D.sp
     [] D.k = "pwinneradj"                     -> PowSp(D.sp, D.n)
-    [] D.k \in {"mat", "zero"}                -> D.ran
+    [] D.k \in {"mat", "zero", "const"}       -> D.ran
     [] D.k = "sample"                         -> Plain(<<Len(D.pts)>>, D.sp.fld)
     [] D.k = "flat"                           -> Plain(<<SizeOf(D.sp)>>, D.sp.fld)
     [] D.k = "inner"                          -> Fld(D.sp.fld)
@@ -102,7 +102,7 @@ Ran(D) ==
 Linear(D) ==
   CASE D.k \in {"pwnorm", "norm", "dist", "cmod", "cmod2"} -> FALSE
     [] D.k = "pow"   -> D.n = 1
-    [] D.k = "const" -> D.v = ZeroEl(D.sp)
+    [] D.k = "const" -> D.v = ZeroEl(D.ran)
     [] OTHER -> TRUE
 
 Pw(D) == IF (D.k = "pwnorm" /\ D.q = <<2, 1>>) \/ D.k \in {"norm", "dist"} THEN 2 ELSE 1
@@ -213,13 +213,16 @@ Adj(D) ==
     [] D.k = "mulS"    -> [D EXCEPT !.k = "inner", !.c = CConj(D.c)]
     [] D.k = "inner"   -> [D EXCEPT !.k = "mulS", !.c = CConj(D.c)]
     \* only defined if the operator is linear, i.e. the zero operator
-    [] D.k = "const"   -> IF Linear(D) THEN [D EXCEPT !.k = "zero", !.ran = D.sp] ELSE Err("OpNotImplementedError")
+    [] D.k = "const"   -> IF Linear(D) THEN [D EXCEPT !.k = "zero", !.sp = D.ran, !.ran = D.sp] ELSE Err("OpNotImplementedError")
     [] D.k = "zero"    -> [D EXCEPT !.sp = D.ran, !.ran = D.sp]
     \* RealPart.adjoint = ComplexEmbedding(1), ImagPart.adjoint = ComplexEmbedding(1j); on real spaces RealPart is
     \* self-adjoint and ImagPart's adjoint is the zero operator
     [] D.k = "reim"    -> IF D.sp.fld = "R" THEN (IF D.b = CZero THEN D ELSE [D EXCEPT !.k = "zero", !.ran = D.sp])
                           ELSE [D EXCEPT !.k = "cemb", !.sp = RealSp(D.sp), !.a = <<Re(D.a), Re(D.b)>>, !.b = CZero]
-    [] D.k = "cemb"    -> IF D.sp.fld = "R" THEN [D EXCEPT !.k = "reim", !.sp = CplxSp(D.sp), !.a = CR(Re(D.a)), !.b = CR(Im(D.a))]
+    \* (var = "sum": the general case is handed out as a SUM of multiples of real and imaginary part - an operator
+    \*  expression, for which no inverse is documented; everything derived from it stays one)
+    [] D.k = "cemb"    -> IF D.sp.fld = "R" THEN [D EXCEPT !.k = "reim", !.sp = CplxSp(D.sp), !.a = CR(Re(D.a)), !.b = CR(Im(D.a)),
+                                                           !.var = IF Re(D.a) # QZero /\ Im(D.a) # QZero THEN "sum" ELSE D.var]
                           ELSE [D EXCEPT !.a = CConj(D.a)]
     [] D.k = "cmodd"   -> [D EXCEPT !.k = "cmodda"]
     [] D.k = "cmodda"  -> [D EXCEPT !.k = "cmodd"]
@@ -240,7 +243,9 @@ MatInv(m) == IF Len(m) = 1 THEN << <<CInv(m[1][1])>> >>
 Inv(D) ==
   CASE D.k = "mat"    -> IF Len(D.m) = Len(D.m[1]) /\ Len(D.m) > 2 THEN Err("not-offered")      \* (bound of this specification)
                          ELSE IF MatInvertible(D.m) THEN [D EXCEPT !.m = MatInv(D.m), !.sp = D.ran, !.ran = D.sp, !.c = CInv(D.c)]
-                         ELSE Err("any-error")                \* no inverse exists; which error is not documented
+                         \* a singular square matrix: nothing is documented, and floating point elimination need not notice
+                         ELSE IF Len(D.m) = Len(D.m[1]) THEN Err("not-offered")
+                         ELSE Err("any-error")                \* not square: no inverse matrix; which error is not documented
     [] D.k = "flat"   -> [D EXCEPT !.k = "unflat", !.c = CInv(D.c)]
     [] D.k = "unflat" -> [D EXCEPT !.k = "flat", !.c = CInv(D.c)]
     [] D.k \in {"scale", "id"} -> IF D.a = CZero THEN Err("ZeroDivisionError") ELSE [D EXCEPT !.a = CInv(D.a)]
@@ -252,7 +257,8 @@ Inv(D) ==
     \* the (left) inverse: for a real domain a combination of real and imaginary part, else the scaling by 1 / scalar
     [] D.k = "cemb"   -> IF D.a = CZero THEN Err("any-error")
                          ELSE IF D.sp.fld = "R"
-                           THEN LET s == CConj(CInv(D.a)) IN [D EXCEPT !.k = "reim", !.sp = CplxSp(D.sp), !.a = CR(Re(s)), !.b = CR(Im(s))]
+                           THEN LET s == CConj(CInv(D.a)) IN [D EXCEPT !.k = "reim", !.sp = CplxSp(D.sp), !.a = CR(Re(s)), !.b = CR(Im(s)),
+                                                                          !.var = IF Re(s) # QZero /\ Im(s) # QZero THEN "sum" ELSE D.var]
                            ELSE [D EXCEPT !.a = CInv(D.a)]
     [] OTHER -> Err("no-inverse-documented")
 HasInv(D) == D.k \in {"mat", "flat", "unflat", "scale", "id", "reim", "cemb"}
@@ -262,6 +268,7 @@ HasInv(D) == D.k \in {"mat", "flat", "unflat", "scale", "id", "reim", "cemb"}
 AdjOffered(D) == /\ HasAdj(D) /\ (D.k = "mat" => D.sp.fld = D.ran.fld)
                  /\ (D.k \in {"cmodd", "cmod2d", "cmodda", "cmod2da"} => D.sp.fld = "C")
 InvOffered(D) == HasInv(D) /\ Inv(D).why # "not-offered" /\ (D.k = "mat" => D.sp.fld = D.ran.fld)
+                 /\ (D.k \in {"cemb", "reim"} => D.var # "sum")
 
 (* ------------------------------ derivative ------------------------------ *)
 \* the point must allow an exact, documented value (norms rational and non-zero, no singular component)
@@ -294,7 +301,7 @@ Deriv(D, x) ==
     \* the direction from the fixed vector y to the point z, normalised (the Examples section; the one-line formula of
     \* the docstring has the opposite sign and contradicts its own example)
     [] D.k = "dist"  -> LET d == VSub(x[1], D.v[1]) s == QSqrt(InnerBase(D.env.wt, d, d)[1]) IN [D EXCEPT !.k = "inner", !.v = << VScal(CR(QInv(s)), d) >>]
-    [] D.k = "const" -> [D EXCEPT !.k = "zero", !.ran = D.sp]
+    [] D.k = "const" -> [D EXCEPT !.k = "zero"]                      \* always zero, from the domain to the range
     [] D.k = "reim"  -> D
     [] D.k = "cmod"  -> [D EXCEPT !.k = "cmodd", !.v = x]
     [] D.k = "cmod2" -> [D EXCEPT !.k = "cmod2d", !.v = x]
